@@ -86,6 +86,7 @@ type Op struct {
 	SidTs      uint64 `json:"sidTs,omitempty"`      // creation timestamp of the sid identity (fixed by the generator so that replays agree)
 	SleepMs    int    `json:"sleepMs,omitempty"`    // wall-clock delay before executing (replica offset)
 	Eth        bool   `json:"eth,omitempty"`
+	EthMixed   bool   `json:"ethMixed,omitempty"`   // eip155 account id in EIP-55 checksum spelling instead of lower case
 	DocSid     int    `json:"docSid,omitempty"`     // sid-signed request: sign with the key of *this* identity and name its document in the kid (0 = the owner identity itself)
 	Inner      *Op    `json:"inner,omitempty"`      // sim: the transaction executed without being committed
 }
@@ -578,6 +579,10 @@ func (w *World) Exec(op *Op) (Result, M) {
 			h := sha256.Sum256([]byte("saoverif-eth-" + acct.Name))
 			ethKey, _ = ethcrypto.ToECDSA(h[:])
 			accId = "eip155:1:" + strings.ToLower(ethcrypto.PubkeyToAddress(ethKey.PublicKey).Hex())
+			if op.EthMixed {
+				// the EIP-55 (mixed-case) spelling of the same Ethereum account
+				accId = "eip155:1:" + ethcrypto.PubkeyToAddress(ethKey.PublicKey).Hex()
+			}
 		}
 		now := uint64(w.Clock().Unix())
 		proofTs := ts
@@ -622,7 +627,8 @@ func (w *World) Exec(op *Op) (Result, M) {
 			sg, _ := ethcrypto.Sign(hash, ethKey)
 			sg[64] += 27
 			signature = "0x" + hex.EncodeToString(sg)
-			proofOk = true
+			// verifyBindingProof compares the recovered address, lower-cased, with the id's address part literally
+			proofOk = !op.EthMixed
 		}
 		accountDid := fmt.Sprintf("did:key:acct%d-of-%s", op.Acct, rootDocId[:8])
 		if op.Eth {
